@@ -10,6 +10,7 @@ from engine import pat
 from engine.util import calls_with_nodes, where, own_nodes
 
 RULES = {
+    "R-11.8": "a transaction reads ITS version: the data primitives of dns.zone.Transaction (_get_rdataset, _get_node, _name_exists, _iterate_names, _iterate_rdatasets, _put_rdataset, _delete_name, _delete_rdataset) use self.version and never the zone object (self.zone / self.manager), whose node map is re-pointed to the newest version by every commit",
     "R-11.7": "retention decisions are atomic with respect to readers: every access to the version list, the reader set and the pruning policy sits under the version lock (C12 R-12.1 adopted), so a version cannot be pruned between a reader choosing it and registering",
     "R-11.6": "a committed version freezes every node the transaction touched: `changed` holds the validated map keys (C10 R-10.2 adopted) and copy-on-write records every fresh node (C10 R-10.5 adopted), so ImmutableVersion finds and freezes each of them",
     "R-11.5": "snapshot isolation of B-tree zones rests on copy-on-write ownership in dns/btree.py (C19 R-19.1), and immutable rdatasets rest on dns.immutable.Dict copying its source (C07 R-07.8): both are adopted",
@@ -329,10 +330,26 @@ def run(model, rep, tier):
         rep.check(bool(prunes) and cp.dominated_by_set(cp.exit.id, prunes), "R-11.4", qn, where(fp, fp.node), f"{what} always runs the pruner",
                   f"{what} can finish without running _prune_versions_unlocked() (it is missing or conditional): versions no reader pins and the policy does not keep stay retained - and openable by id - "
                   "until some later event", stmt="always-prunes")
+    # ---------------------------------------------------------------- R-11.8
+    zt = model.cls("dns.zone.Transaction")
+    prims = ("_get_rdataset", "_get_node", "_name_exists", "_iterate_names", "_iterate_rdatasets", "_put_rdataset", "_delete_name", "_delete_rdataset")
+    n8 = 0
+    for pn in prims:
+        fp8 = zt.methods.get(pn)
+        if fp8 is None:
+            rep.blind("R-11.8", f"dns.zone.Transaction.{pn}", zt.file, "primitive not found in dns.zone.Transaction", stmt="reads-version")
+            continue
+        n8 += 1
+        zone_uses = [a for a in ast.walk(fp8.node) if isinstance(a, ast.Attribute) and a.attr in ("zone", "manager") and src(a.value) == "self"]
+        ver_uses = [a for a in ast.walk(fp8.node) if isinstance(a, ast.Attribute) and a.attr == "version" and src(a.value) == "self" and isinstance(a.ctx, ast.Load)]
+        rep.check(not zone_uses and bool(ver_uses), "R-11.8", fp8.qualname, where(fp8, zone_uses[0] if zone_uses else fp8.node), "reads and writes go through self.version only",
+                  (f"`{src(zone_uses[0])}` is used in a data primitive: the zone's own node map is the NEWEST version, not the one this transaction is pinned to - a reader opened before a commit sees the names of the later version"
+                   if zone_uses else "the primitive no longer uses self.version"), stmt="reads-version")
+    rep.floor("R-11.8", n8, 8)
     rep.assume("tuple and collections.abc.Mapping provide no mutating methods (interpreter builtins, introspected with hasattr)")
     rep.assume("a frozen dns.btree.BTreeDict rejects mutation (decided under C19 R-19.2)")
     rep.share(model, "C12", {"R-12.1"}, "R-11.7", "reader(id=N) pins version N only if pruning cannot run concurrently with its lookup-and-register step")
-    rep.share(model, "C10", {"R-10.2", "R-10.4", "R-10.5"}, "R-11.6", "ImmutableVersion.__init__ looks every name of version.changed up in version.nodes and replaces the node by a frozen one")
+    rep.share(model, "C10", {"R-10.2", "R-10.4", "R-10.5", "R-10.15"}, "R-11.6", "ImmutableVersion.__init__ looks every name of version.changed up in version.nodes and replaces the node by a frozen one")
     rep.share(model, "C19", {"R-19.1", "R-19.2"}, "R-11.5", "a reader's version shares B-tree nodes with every later writable version")
     rep.share(model, "C07", {"R-07.8"}, "R-11.5", "committed rdatasets are frozen by wrapping their items in dns.immutable.Dict")
     rep.meta["explanation"] = (
@@ -360,6 +377,12 @@ def _is_immutable_version_expr(model, f, arg):
 
 
 WITNESSES = [
+    {"id": "c11-iterate-names-from-zone", "rule": "R-11.8", "file": "dns/zone.py", "expect": "fires",
+     "old": "        return self.version.keys()", "new": "        return self.zone.keys()"},
+    {"id": "c11-name-exists-from-manager", "rule": "R-11.8", "file": "dns/zone.py", "expect": "fires",
+     "old": "        return self.version.get_node(name) is not None", "new": "        return self.manager.get_node(name) is not None"},
+    {"id": "c11-twin-iterate-names-local-version", "rule": "R-11.8", "file": "dns/zone.py", "expect": "silent",
+     "old": "        return self.version.keys()", "new": "        version = self.version\n        return version.keys()"},
     {"id": "c11-end-read-prunes-only-when-no-readers", "rule": "R-11.4", "file": "dns/versioned.py", "expect": "fires",
      "old": "            self._readers.remove(txn)\n            self._prune_versions_unlocked()", "new": "            self._readers.remove(txn)\n            if len(self._readers) == 0:\n                self._prune_versions_unlocked()"},
     {"id": "c11-immutable-rdataset-aliases-source", "rule": "R-11.5", "file": "dns/rdataset.py", "expect": "fires",
